@@ -4,7 +4,7 @@
    [Print Assumptions] beneath, and non-vacuity examples. *)
 From Coupe Require Import Lib.Prelude Model.NumPart Model.Greedy Model.Kk
   Proofs.NumPartLemmas Proofs.GreedyProofs Proofs.KkProofs Gen.GreedyKkGen
-  Lib.SFloat Model.ArithW Model.GreedyW Proofs.ArithWLemmas Proofs.GreedyWProofs.
+  Lib.SFloat Model.ArithW Model.GreedyW Proofs.ArithWLemmas Proofs.GreedyWProofs Proofs.F64RoundFacts.
 From Coq Require Import Floats.SpecFloat.
 From Coq Require Import Permutation.
 Open Scope Z_scope.
@@ -145,11 +145,18 @@ Theorem C12_f64_order_laws : order_laws F64arith okF.
 Proof. exact F64_order_laws. Qed.
 Print Assumptions C12_f64_order_laws.
 
-(* binary64: Greedy is LPT in rounded arithmetic.  The one premise that is not proved here is the
-   IEEE-754 fact that the rounded sum of two non-negative numbers is a non-negative number (never NaN,
-   never -0.0) for SpecFloat's addition. *)
-Theorem C12_greedy_is_lpt_f64 : add_closed F64arith okF ->
-  forall ws k p0 p, Forall okF ws -> (2 <= k)%nat -> greedyW F64arith ws k p0 = Ok p ->
+(* ... on the canonical representations ([okFv] = valid_binary + okF), the closure law holds as well: the
+   rounded sum of two non-negative binary64 numbers is a non-negative number -- never NaN, never -0.0,
+   possibly +infinity -- proved for SpecFloat's SFadd through Flocq (Bplus_correct).  This theorem and
+   C12_greedy_is_lpt_f64 depend on the axioms of Coq's classical real numbers. *)
+Theorem C12_f64_add_closed : order_laws F64arith okFv /\ add_closed F64arith okFv.
+Proof. exact (conj F64_order_laws_v F64_add_closed). Qed.
+Print Assumptions C12_f64_add_closed.
+
+(* binary64: Greedy is LPT in rounded arithmetic, for all non-negative weights (finite or +infinity, in
+   canonical representation, no -0.0); no premise about the arithmetic. *)
+Theorem C12_greedy_is_lpt_f64 :
+  forall ws k p0 p, Forall okFv ws -> (2 <= k)%nat -> greedyW F64arith ws k p0 = Ok p ->
   let its := sort_items_descW F64arith (items_ofW F64arith ws) in
   length p = length ws /\ length p = length p0
   /\ Forall (fun x => (x < N.of_nat k)%N) p
@@ -157,8 +164,14 @@ Theorem C12_greedy_is_lpt_f64 : add_closed F64arith okF ->
   /\ is_lpt_assign F64arith its p (repeat (S754_zero false) k)
   /\ exists L, lpt_runW F64arith (wtsW F64arith its) (repeat (S754_zero false) k) L
        /\ forall L2, lpt_runW F64arith (wtsW F64arith its) (repeat (S754_zero false) k) L2 -> Permutation L L2.
-Proof. exact (greedyW_is_lpt F64arith okF F64_order_laws). Qed.
+Proof. exact (greedyW_is_lpt F64arith okFv F64_order_laws_v F64_add_closed). Qed.
 Print Assumptions C12_greedy_is_lpt_f64.
+
+(* Greedy on such weights is total: Ok, or the length mismatch *)
+Theorem C12_greedy_total_f64 : forall ws k p0, Forall okFv ws ->
+  (length ws = length p0 -> exists p, greedyW F64arith ws k p0 = Ok p)
+  /\ (length ws <> length p0 -> greedyW F64arith ws k p0 = Err (InputLenMismatch (length p0) (length ws))).
+Proof. exact (greedyW_total F64arith okFv F64_order_laws_v F64_add_closed). Qed.
 
 Theorem C12_greedy_total_generic : forall (A : arith) (ok : W A -> Prop), order_laws A ok -> add_closed A ok ->
   forall ws k p0, Forall ok ws ->
@@ -193,9 +206,9 @@ Example C12_nonvacuous_greedy_f64 :
   let ws := map (fun b => f64_of_bits b)
               [4591870180066957722; 4596373779694328218; 4599075939470750515; 4604480259023595110;
                4607632778762754458; 4599075939470750516]%N in
-  Forall okF ws /\ exists p, greedyW F64arith ws 2 [9;9;9;9;9;9]%N = Ok p /\ check_greedyW F64arith ws 2 p = true.
+  Forall okFv ws /\ exists p, greedyW F64arith ws 2 [9;9;9;9;9;9]%N = Ok p /\ check_greedyW F64arith ws 2 p = true.
 Proof.
   cbv zeta. split.
-  - repeat constructor.
+  - repeat constructor; vm_compute; reflexivity.
   - eexists. split; vm_compute; reflexivity.
 Qed.
